@@ -57,7 +57,8 @@ Proof.
 Qed.
 Theorem C02_src_kept_iff_passes I t : keep_src (criterium_src (de I) (Z.of_nat (nann I))) (ua_sum I t) = passes I t.
 Proof.
-  unfold criterium_src, keep_src, passes, cut. cbv zeta. fold (c2n_src (Z.of_nat (nann I))). rewrite C02_c2n_src. reflexivity.
+  pose proof (C02_c2n_src (nann I)) as E. unfold c2n_src in E.
+  unfold criterium_src, keep_src, passes, cut. cbv zeta. rewrite ?E; first [reflexivity | (f_equal; ring)].
 Qed.
 Theorem C02_src_objective :
   map snd (firstn 2 (skipn 3 best_ilp_src)) =
